@@ -172,7 +172,7 @@ def run():
     verd = validate(rep, [x for _, x in good])
     # the binding binds: a recorded run with its last output row removed must be rejected
     import copy
-    probe = next((x for _, x in good if len(x['out']) >= 1), None)
+    probe = next((x for _, x in good if isinstance(x['out'], list) and len(x['out']) >= 1), None)
     if probe is not None:
         c1 = copy.deepcopy(probe)
         c1['out'] = c1['out'][:-1]
